@@ -389,18 +389,19 @@ Inductive wop :=
                                          upstream reset, read error, short source of CopyN);
                                          cut = Some j (j < len): the writer below accepts only the
                                          first j of them and reports an error (connection closed
-                                         by the client) *)
+                                         by the client: the call that hits it returns n > 0
+                                         TOGETHER with the error) *)
 | OPanic.
 Notation OW len fail := (OB BWrite len false fail).
 (* io.Copy's buffer size *)
 Definition copy_chunk : N := 32768.
 
 (* the writer below the recorder.  u_size: body bytes it ACCEPTED for the client (what it reported
-   as written); u_lost: those of them that were accepted by a call which also reported an error;
+   as written, whether or not the call also reported an error);
    u_dead (net/http only): the connection is gone — after the first failed write to the
    connection every later Write fails with 0 bytes (bufio's sticky error) *)
-Record uw := { u_status : option Z; u_size : N; u_lost : N; u_dead : bool }.
-Definition uw0 : uw := {| u_status := None; u_size := 0; u_lost := 0; u_dead := false |}.
+Record uw := { u_status : option Z; u_size : N; u_dead : bool }.
+Definition uw0 : uw := {| u_status := None; u_size := 0; u_dead := false |}.
 (* w_nethttp: net/http's response (no body for 1xx/204/304, HEAD bodies accepted and dropped);
    otherwise the harness's scripted writer.  w_head: the request's method is HEAD *)
 Record wcfg := { w_nethttp : bool; w_head : bool }.
@@ -413,12 +414,12 @@ Definition body_forbidden (code : Z) : bool :=
 Definition uw_wh (u : uw) (code : Z) : uw :=
   match u_status u with
   | Some _ => u
-  | None => {| u_status := Some code; u_size := u_size u; u_lost := u_lost u; u_dead := u_dead u |}
+  | None => {| u_status := Some code; u_size := u_size u; u_dead := u_dead u |}
   end.
 Definition client_status (u : uw) : Z := match u_status u with Some s => s | None => 200%Z end.
-(* the writer takes [n] more bytes, [l] of them in a call that fails *)
-Definition uw_take (c : wcfg) (u : uw) (n l : N) (fails : bool) : uw :=
-  {| u_status := u_status u; u_size := u_size u + n; u_lost := u_lost u + l;
+(* the writer takes [n] more bytes; [fails]: the call that brought the last of them reports an error *)
+Definition uw_take (c : wcfg) (u : uw) (n : N) (fails : bool) : uw :=
+  {| u_status := u_status u; u_size := u_size u + n;
      u_dead := u_dead u || (fails && w_nethttp c) |}.
 (* which of the special cases of the writer applies to a body call (after the implicit 200):
    1 = the status forbids a body (Write fails, nothing accepted), 2 = HEAD (accepted and dropped),
@@ -435,13 +436,13 @@ Definition uw_write (c : wcfg) (u : uw) (len : N) (cut : option N) : uw * N * bo
   else if m =? 2 then (u1, len, false)
   else if m =? 3 then (u1, 0, true)
   else match cut with
-       | Some k => (uw_take c u1 k k true, k, true)
-       | None => (uw_take c u1 len 0 false, len, false)
+       | Some k => (uw_take c u1 k true, k, true)
+       | None => (uw_take c u1 len false, len, false)
        end.
 (* a copy of [len] > 0 bytes as the sequence of Write calls io.Copy makes (full chunks, then the
-   rest), in closed form: (writer after, bytes of the calls that reported NO error).  With
+   rest), in closed form: (writer after, sum of the counts those calls REPORTED).  With
    cut = Some j the calls before the one containing byte j succeed (j - j mod chunk bytes), that
-   one accepts j mod chunk bytes and fails, and the copy stops *)
+   one accepts j mod chunk bytes, reports them with an error, and the copy stops: j in all *)
 Definition uw_copy (c : wcfg) (u : uw) (len : N) (cut : option N) : uw * N :=
   let u1 := uw_wh u 200 in
   let m := uw_mode c u1 in
@@ -449,14 +450,15 @@ Definition uw_copy (c : wcfg) (u : uw) (len : N) (cut : option N) : uw * N :=
   else if m =? 2 then (u1, len)
   else if m =? 3 then (u1, 0)
   else match cut with
-       | Some j => (uw_take c u1 j (j mod copy_chunk) true, j - j mod copy_chunk)
-       | None => (uw_take c u1 len 0 false, len)
+       | Some j => (uw_take c u1 j true, (j - j mod copy_chunk) + j mod copy_chunk)
+       | None => (uw_take c u1 len false, len)
        end.
 
 (* ResponseRecorder: like net/http it records the status that commits the response — the first
    WriteHeader with a final (non-informational) code, or the implicit 200 of the first Write;
-   later WriteHeader calls do not change it.  Write adds the reported count of a call to the
-   size only when the call reported no error *)
+   later WriteHeader calls do not change it.  Write adds the count the underlying writer
+   reported for the call to the size, whether or not the call also reported an error
+   (`if n > 0 { r.size += n }`: counts are naturals here) *)
 Record rec := { r_status : Z; r_size : N; r_wrote : bool }.
 Definition rec0 : rec := {| r_status := 200; r_size := 0; r_wrote := false |}.
 (* 1xx other than 101: an informational header, which does not commit the response *)
@@ -475,7 +477,7 @@ Definition step (c : wcfg) (s : uw * rec) (o : wop) : uw * rec :=
                  if negb (r_wrote r) && negb (informational code)
                  then {| r_status := code; r_size := r_size r; r_wrote := true |} else r)
   | OB BWrite len _ cut =>
-      let '(u', n, err) := uw_write c u len cut in (u', rec_add r (if err then 0 else n))
+      let '(u', n, _) := uw_write c u len cut in (u', rec_add r n)
   | OB BCopy len _ cut =>
       if len =? 0 then s
       else let '(u', counted) := uw_copy c u len cut in (u', rec_add r counted)
@@ -518,31 +520,6 @@ Fixpoint tlook (tbl : list (Z * N)) (code : Z) : N :=
    own fallback ("%d %s"); tbl = length of the DefaultErrorFunc body per status *)
 Definition err_ops (tbl : list (Z * N)) (ek : N) (code : Z) : list wop :=
   [OWH code; OW (if ek =? 0 then tlook tbl code - 1 else tlook tbl code) None].
-(* every writer-side failure is all-or-nothing for the call it hits: a Write that fails accepted
-   nothing, a copy is cut at a chunk boundary.  (A source that fails is no writer-side failure.) *)
-Definition clean_cut (o : wop) : bool :=
-  match o with
-  | OB BWrite _ _ (Some j) => j =? 0
-  | OB BCopy _ _ (Some j) => j mod copy_chunk =? 0
-  | _ => true
-  end.
-Definition clean_cuts (ops : list wop) : bool := forallb clean_cut ops.
-(* no writer-side failure at all *)
-Definition uncut (ops : list wop) : bool :=
-  forallb (fun o => match o with OB _ _ _ (Some _) => false | _ => true end) ops.
-(* a writer cannot accept more than it is offered: a cut lies inside the call's bytes *)
-Definition cut_within (o : wop) : bool :=
-  match o with OB _ len _ (Some j) => j <? len | _ => true end.
-Definition cuts_within (ops : list wop) : bool := forallb cut_within ops.
-(* the most one call can lose: all of a Write, less than a chunk of a copy *)
-Definition op_loss_bound (o : wop) : N :=
-  match o with
-  | OB BWrite len _ _ => len
-  | OB BCopy len _ _ => N.min len copy_chunk
-  | _ => 0
-  end.
-Fixpoint max_loss (ops : list wop) : N :=
-  match ops with [] => 0 | o :: r => N.max (op_loss_bound o) (max_loss r) end.
 (* the same script with every source ending regularly *)
 Definition clear_srcerr (o : wop) : wop :=
   match o with OB k len _ cut => OB k len false cut | _ => o end.
